@@ -9,6 +9,7 @@ CONSTANTS
   Kinds = {"npoint"}
   Rule = "npoint_asbuilt"
   RodVariant = "spec"
+  SignedNodes = "no"
   Export = FALSE
 INVARIANT InvalidNeverNaN
 INVARIANT OnePerLayer
